@@ -290,15 +290,15 @@ def task_core_core_der(ctx):
     a0 = CONSTS["a0"]
     for method, ng in (("MNDO", 1), ("AM1", 4), ("PM3", 2)):
         Z, idxi, idxj, ni, nj, const, alpha, K, L, M, rij, gam = _pair_setup(ng)
-        xij = st.symbolic((5, 3), "x")
-        WX = st.symbolic((5, 3), "dgam")  # d(ss|ss)/dX_i
+        xij = st.symbolic((len(idxi), 3), "x")
+        WX = st.symbolic((len(idxi), 3), "dgam")  # d(ss|ss)/dX_i
 
         def thunk():
             pars = (alpha,) if method == "MNDO" else (alpha, K, L, M)
             En = fe(None, const, 1, ni, nj, st.tensor(idxi), st.tensor(idxj), rij, None, None, None, None, gam=gam, method=method, parameters=pars)
             mol = Obj(ni=ni, nj=nj, idxi=st.tensor(idxi), idxj=st.tensor(idxj), xij=xij, rij=rij, const=const)
-            w_x = st.zeros(5, 3, 10, 10)
-            for k in range(5):
+            w_x = st.zeros(len(idxi), 3, 10, 10)
+            for k in range(len(idxi)):
                 for c in range(3):
                     w_x.a[k, c, 0, 0] = WX.a[k, c]
             pars2 = (alpha.clone(),) if method == "MNDO" else (alpha.clone(), K, L, M)
@@ -310,7 +310,7 @@ def task_core_core_der(ctx):
             ctx.error(method + ".paths", "%r %s" % ([p.raised for p in ex.paths], ex.paths[0].notes.get("traceback", "")[-600:] if ex.paths else ""))
             continue
         En, g = ex.paths[0].value
-        for k in range(5):
+        for k in range(len(idxi)):
             dEdr = Sym(E.diff(En.a[k].n, rij.a[k].n))
             dEdg = Sym(E.diff(En.a[k].n, gam.a[k].n))
             for c in range(3):
